@@ -43,6 +43,7 @@ def run(ctx: Ctx, chk) -> None:
     chk.run_rule(listen1, ctx)
     chk.run_rule(lambda c, k: tables.dispatch_total_rule(c, k, "incoming"), ctx)
     chk.run_rule(reject_set, ctx)
+    chk.run_rule(reject_esc, ctx)
     chk.run_rule(tables.handler_state_rule, ctx)
     chk.run_rule(ctor_identity, ctx)
     chk.run_rule(placeholder_fresh, ctx)
@@ -106,6 +107,41 @@ def ctor_identity(ctx: Ctx, chk) -> None:
             else:
                 chk.refute(rule, key, f"`{norm(st)[:70]}` does not store the argument as given: a value the network presented (e.g. an empty library version or description) is replaced by something else in the registry", ctx.loc(init, st))
     chk.floor(rule, "constructor parameters stored by Node / Child", n, 10)
+
+
+def reject_esc(ctx: Ctx, chk) -> None:
+    rule = "REJECT-ESC"
+    chk.rule(rule, "nothing else stops a report from being recorded: for every protocol version, the exceptions that can propagate out of a reporting handler (its wrappers, helpers and the replies it sends included - interprocedural escape analysis) are the rejections the statement names for it, a payload / version the handler it delegates to refuses, or a transport error of a reply; any other exception (from a log call, a lookup, a conversion) aborts the handler before or after the registry write, so the registry is no longer what the network reported")
+    from ..interp import Frame
+
+    eea = ctx.eea()
+    cells = tables.handler_cells(ctx)
+    transport = "aiomysensors.exceptions.TransportError"
+    extra = {"handle_presentation": {"InvalidMessageError"}}  # a gateway presentation carries the version report (C05)
+    n = 0
+    seen = set()
+    for V in ctx.versions:
+        for cell, cal in cells[V].items():
+            if cal is None:
+                continue
+            name = cal.chain()[-1].func.name
+            lic = LICENSED_REJECTIONS.get(name)
+            if lic is None:
+                continue
+            n += 1
+            esc = eea.escapes(Frame(cal, V))
+            for (exc, site), _path in sorted(esc.items(), key=lambda kv: (kv[0][1].loc(), kv[0][0])):
+                short = exc.rsplit(".", 1)[-1]
+                key = f"{site.key()}::{short}"
+                if key in seen:
+                    continue
+                seen.add(key)
+                chk.instance(rule)
+                if short in lic or short in extra.get(name, ()) or eea.issub(exc, transport):
+                    chk.ok(rule, key, f"{short}: a rejection the statement names (or the failure of a reply)", site.loc(), sample=False)
+                else:
+                    chk.refute(rule, key, f"{short} can propagate out of {name} (protocol {V}) from `{site.text[:70]}`: the statement lets this handler refuse a report only with {sorted(lic)}; this exception aborts the handler for some well-formed reports, which are then not recorded (or recorded but not yielded)", site.loc(), version=V)
+    chk.floor(rule, "reporting handler cells", n, 30)
 
 
 def reject_set(ctx: Ctx, chk) -> None:
@@ -401,6 +437,26 @@ def guard_mut(ctx: Ctx, chk) -> None:
                     if callers_ok and ncalls:
                         ok_all = True
                         why = ""
+                if not ok_all:
+                    # the guard may have been hoisted into a decorator of the handler: it then dominates the call of
+                    # the wrapped function in that decorator's wrapper (same message, same gateway)
+                    for dec in f0.decorators:
+                        d = I.decorator_def(f0, dec)
+                        if not isinstance(d, FuncInfo):
+                            continue
+                        w0 = I.wrapper_of(d)
+                        wi = ctx.inl(w0, lambda h: not h.name.startswith("handle_"))
+                        wparams = I.wrapped_param_names(w0)
+                        dcalls = [x for x in ctx.own_nodes(wi) if isinstance(x, ast.Call) and isinstance(x.func, ast.Name) and x.func.id in wparams]
+                        if not dcalls:
+                            continue
+                        gw = CFG(wi.node)
+                        cnw = Canon(I, wi)
+                        dn = gw.nodes_where(lambda x, dcalls=dcalls: any(x.contains(c) for c in dcalls))
+                        if dn and all(_dominated_by_guard(ctx, wi, gw, x, cnw, base, key, kind)[0] for x in dn):
+                            ok_all = True
+                            why = ""
+                            break
                 if ok_all:
                     chk.ok(rule, ukey, f"dominated by `{key} not in {base}` -> raise Missing{kind.capitalize()}Error({key})", ctx.loc(f, node), sample=n_uses <= 3)
                 else:
